@@ -35,6 +35,10 @@ class Ctx:
     def anchor(self, rule, path, kind="body"):
         """Look up a function by def path; a missing anchor is a violation (fail closed)."""
         b = self.facts.body(path)
+        if b is not None:
+            # the view with extracted single-use helpers folded back in (lib/inline.py)
+            from lib import inline
+            b = inline.inlined(self.facts, b)
         if b is None:
             self.ob(rule, "anchor:" + path, False,
                     "mechanism `%s` not found in the analysed workspace (renamed or removed)" % path,
